@@ -56,6 +56,50 @@ static int spec_is_prefix(const char *p, const char *k)   /* p is a prefix of k 
 	return 1;
 }
 
+/* ---- declared key order ----
+ * CBMC's symbolic execution is only affordable on these pointer structures when the control flow of the
+ * real code is concrete.  The harness therefore fixes, per enumerated case, the ORDER RELATION between all
+ * keys involved (a concrete rank per key object; equal rank = equal string), ASSUMES that the symbolic key
+ * contents realise exactly that relation, and the strcmp stub answers from the ranks -- after asserting that
+ * the answer agrees with the contents.  All relations between the keys are enumerated by the harness. */
+#define VERIF_MAXKEYS 8
+const char *verif_keytab[VERIF_MAXKEYS];
+int verif_keyrank[VERIF_MAXKEYS];
+unsigned verif_nkeys;
+
+static int verif_sign(int x) { return x < 0 ? -1 : (x > 0 ? 1 : 0); }
+
+static void verif_keys_reset(void) { verif_nkeys = 0; }
+
+static void verif_key_register(const char *k, int rank)
+{
+	unsigned j;
+	for (j = 0; j < verif_nkeys; j++) {
+		ASSUME(verif_sign(spec_strcmp(k, verif_keytab[j])) == verif_sign(rank - verif_keyrank[j]));
+	}
+	verif_keytab[verif_nkeys] = k;
+	verif_keyrank[verif_nkeys] = rank;
+	verif_nkeys++;
+}
+
+static int verif_strcmp(const char *a, const char *b)
+{
+	int ra = -1, rb = -1, r;
+	unsigned i;
+	for (i = 0; i < verif_nkeys; i++) {
+		if (verif_keytab[i] == a) ra = verif_keyrank[i];
+		if (verif_keytab[i] == b) rb = verif_keyrank[i];
+	}
+	if (ra >= 0 && rb >= 0) {
+		r = verif_sign(ra - rb);
+		POST(verif_sign(spec_strcmp(a, b)) == r, "AUX: the declared key order agrees with the key contents");
+		return r;
+	}
+	return spec_strcmp(a, b);
+}
+#undef strcmp
+#define strcmp verif_strcmp
+
 /* values: arbitrary non-NULL tokens that are never dereferenced (assumption: stored values are not NULL,
  * because the API reports "nothing" as NULL) */
 static void *verif_value_new(void)
